@@ -131,7 +131,7 @@ def run_case(case):
                     e = float(np.max(np.abs(a - b_))) / scale
                     key = f"slice_vs_{nm}_{prec}"
                     resid[key] = max(resid.get(key, 0.0), e)
-                    if e > T[prec]:
+                    if not e <= T[prec]:
                         viol.append(dict(what="slice_is_not_the_solution_at_its_level", reference=nm, field=fld, slice=kk, level=L, rel=e, **ctx))
     b = {f"sel:{sel}": 1, f"form:{form}": 1, f"prec:{prec}": 1, "analytic" if analytic else "numeric": 1,
          "mode:footprint" if fp else "mode:dispersion": 1, f"nz:{'<=8' if nz <= 9 else '<=24' if nz <= 25 else '>24'}": 1,
@@ -208,7 +208,7 @@ def iface_case(case):
                 c1, f1 = np.asarray(r1["conc"]), np.asarray(r1["flx"])
                 c1, f1 = c1.reshape(c1.shape[-2:]), f1.reshape(f1.shape[-2:])
                 e = max(float(np.max(np.abs(c[k] - c1))) / (float(np.max(np.abs(c1))) or 1.0), float(np.max(np.abs(f[k] - f1))) / (float(np.max(np.abs(f1))) or 1.0))
-                if e > 1e-12:
+                if not e <= 1e-12:
                     viol.append(dict(what="slice_is_not_the_solution_at_its_level", step=i, level=lv[k], rel=e, driver="run_bldfm_timeseries", **ctx))
     return {"evals": counters["slices_compared"], "nontrivial": True, "sig": f"iface|{case['idx']}", "buckets": {"interface_series": 1, f"iface_forcing:{forcing}": 1},
             "counters": counters, "violations": viol, "sample": ctx}
